@@ -69,6 +69,18 @@ CHECKS.update({
             TRUSTED, "3 (C18)"),
 })
 
+CHECKS.update({
+    "C01": ("exhaustive enumeration of byte strings (six input spaces) fed to every public parsing entry point of the real code, every accessor/conversion/iterator called on every accepted value in two orders (all ordered pairs on a subset), with unwind capture, linear step bounds, a per-case watchdog and an allocation cap",
+            "No panic, no iterator beyond its linear bound, no hang and no runaway allocation on any string of the stated spaces through any entry point or accessor. Exhaustive inside the bounds; strings outside them are not covered.",
+            TRUSTED, "3 (C01)"),
+    "C19": ("exhaustive enumeration of helper parameters, of a 24-member family of third-party packet definitions over the header space, and of Ext / UnknownBuilder configurations executed on the real code; byte-exact helper contracts and a three-valued framing classifier as reference",
+            "The public writer/parser helpers are checked byte-exactly over all paddings, counts and 17 buffer sizes; check_packet::<P> is compared with the framing classifier for 6 type numbers x 4 minimum sizes on every string of the header space; every written third-party / unknown packet is parsed generically, must expose its bytes and convert back intact, also from inside compounds.",
+            TRUSTED, "3 (C19)"),
+    "C20": ("history-tree exploration without merging: all sequences of builder method calls up to a depth over a small call alphabet replayed on the real builders and on a trivial model, in four wrapper flavours, compared with the canonical construction of the final state",
+            "Every call history up to the stated depth (setters in any order with repeats, list adds, owned/borrowed variants, wrapper flavours) must produce the bytes of the canonical construction of its final configuration (FIR up to entry order).",
+            TRUSTED, "3 (C20)"),
+})
+
 NOT_YET = {
 }
 
